@@ -3,5 +3,6 @@ CONSTANTS
   Names = {"a", "b", "c"}
   Missing = "zz"
   MaxMods = 3
+  MaxEdges = 9
 INVARIANT Emit1
 CHECK_DEADLOCK FALSE
